@@ -387,7 +387,8 @@ impl<'a> Run<'a> {
                             Some(key) => {
                                 let entry = self.model.get(&key).unwrap().clone();
                                 match entry.expiry {
-                                    Some(expiry) if expiry < sweep_now => {
+                                    // a sweep at the very instant of expiry is not judged (the statements leave that instant open)
+                                    Some(expiry) if expiry <= sweep_now => {
                                         self.model.remove(&key);
                                         self.dead_ids.insert(id);
                                         self.counts.inc("keys_swept");
@@ -865,8 +866,9 @@ impl<'a> Run<'a> {
         // a value-less upsert (time-to-live only / weight only) made by a client that does not know about the delete must not
         // bring the deleted value back; what the upsert itself answers is not judged (the key reads as absent: precondition)
         let mut valueless_ack = None;
-        if was_readable && self.rng.chance(1, 2) {
-            let shape = self.rng.below(3);
+        let expired_before = state == KeyState::ExpiredUnswept;
+        if (was_readable || expired_before) && self.rng.chance(1, 2) {
+            let shape = if expired_before { 0 } else { self.rng.below(3) };
             let op = match shape {
                 0 => WriteOp::Upsert { key, value: None, weight: None, ttl: Some(Duration::from_secs(50 + self.rng.below(50))), remove_ttl: false },
                 1 => WriteOp::Upsert { key, value: None, weight: Some(self.key_cap(key).min(40)), ttl: None, remove_ttl: false },
@@ -1123,6 +1125,8 @@ impl<'a> Run<'a> {
                 let n = self.rng.range(1, self.cfg.n_keys.min(5));
                 let mut keys: Vec<u64> = Vec::new();
                 while (keys.len() as u64) < n { let k = self.rng.range(1, self.cfg.n_keys + 1); if !keys.contains(&k) { keys.push(k); } }
+                // now and then the same key is asked for more than once in one call
+                if self.rng.chance(1, 3) { let again = *self.rng.pick(&keys); keys.push(again); if self.rng.chance(1, 2) { keys.push(again); } }
                 Step::MultiRead { keys, variant: self.rng.below(3) as usize }
             }
             5 => Step::Advance { delta_ns: self.gen_advance() },
